@@ -56,8 +56,10 @@ type opIn struct {
 }
 
 type asyncIn struct {
-	Subs   [][]string `json:"subs"`   // one list of sources per submitting goroutine
-	Script []string   `json:"script"` // provider outcome per call, cycled: full partial empty nilmap efull epartial eempty enil
+	Subs    [][]string `json:"subs"`              // one list of sources per submitting goroutine
+	Script  []string   `json:"script"`            // provider outcome per call, cycled: full partial empty nilmap efull epartial eempty enil
+	Limiter string     `json:"limiter,omitempty"` // "" / inf | burst
+	Burst   int        `json:"burst,omitempty"`
 }
 
 type input struct {
